@@ -54,7 +54,6 @@ Tolerances (DESIGN 3.2: c * eps * kappa, c = C_SAFETY = 1e3, eps = 2.2e-16):
     computed by the reference). tol_R = C_SAFETY * eps * d * (40 + 1/lmin+(sigma) + 1/lmin+(Phi sigma)); pairs with kappa > 1e8 are counted
     as skipped_ill_conditioned; pairs whose supports are not nested (relative entropy +inf) are outside_math_domain.
 """
-import itertools
 
 import numpy as np
 
